@@ -66,6 +66,30 @@ pub fn run(ctx: &Ctx) -> i32 {
                 }
             }
         }
+        // envelopes whose subject is already compressed (or that are compressed as a whole) can still be encrypted to recipients
+        for (vn, ev) in [("compressed-subject", catch(|| e.compress_subject())), ("compressed-whole", catch(|| e.compress()))] {
+            let Ok(Ok(ev)) = ev else { continue };
+            let want = bind::observe(&ev.subject());
+            for idx in all_lists.iter().filter(|l| l.len() <= 2) {
+                let pubs: Vec<&dyn Encrypter> = idx.iter().map(|&i| &keys[i].pk as &dyn Encrypter).collect();
+                let names: Vec<&str> = idx.iter().map(|&i| keys[i].name).collect();
+                acc.inc("recipient_lists");
+                let cid = |s: &str| format!("tree{ti}/{vn}/recipients{:?}/{s}", names);
+                match catch(|| ev.encrypt_subject_to_recipients(&pubs)) {
+                    Err(p) => acc.viol(format!("C10|encrypt|panic|{}", p.site), p.msg.clone(), cid("encrypt"), json!({})),
+                    Ok(Err(er)) => acc.viol(format!("C10|encrypt_subject_to_recipients|{vn}|refused"), format!("an envelope with a compressed subject cannot be encrypted to recipients: {er}"), cid("encrypt"), json!({"tree": m.show()})),
+                    Ok(Ok(enc)) => for (k, kp) in keys.iter().enumerate() {
+                        acc.inc("decrypt_attempts");
+                        let listed = idx.contains(&k);
+                        match catch(|| enc.decrypt_subject_to_recipient(&kp.sk)) {
+                            Ok(Ok(d)) => if !listed || bind::observe(&d.subject()) != want { acc.viol(format!("C10|decrypt_subject_to_recipient|{vn}|{}", if listed { "differs" } else { "unlisted-decrypts" }), "wrong outcome on a compressed subject", cid(&format!("key-{}", kp.name)), json!({"tree": m.show()})) },
+                            Ok(Err(_)) => if listed { acc.viol(format!("C10|decrypt_subject_to_recipient|{vn}|listed-refused"), "listed recipient cannot decrypt", cid(&format!("key-{}", kp.name)), json!({"tree": m.show()})) },
+                            Err(p) => acc.viol(format!("C10|decrypt_subject_to_recipient|panic|{}", p.site), p.msg.clone(), cid(&format!("key-{}", kp.name)), json!({})),
+                        }
+                    },
+                }
+            }
+        }
         // the wrap-and-encrypt convenience pair itself, on every tree (wrapped inputs included)
         for (k, kp) in keys.iter().enumerate().take(nlisted) {
             acc.inc("decrypt_attempts");
